@@ -41,6 +41,10 @@ pub enum Ty {
     Slice(&'static Ty),
     UStruct,
     UEnum,
+    /// `UserP { x: u32, y: u16 }` (Copy; values travel as `ArgVal::Tup([U, U])`)
+    UPoint,
+    /// `UserW(u8)` (Copy; values travel as `ArgVal::Tup([U])`)
+    UWrap,
 }
 
 #[derive(Clone, Debug, PartialEq, Eq, Hash)]
@@ -187,6 +191,17 @@ impl ArgVal {
                 out.push(b'R');
                 a.enc(out);
                 b.enc(out);
+            }
+            Ty::UPoint => {
+                let t = self.as_tup();
+                out.push(b'P');
+                (t[0].as_u() as u32).enc(out);
+                (t[1].as_u() as u16).enc(out);
+            }
+            Ty::UWrap => {
+                let t = self.as_tup();
+                out.push(b'W');
+                (t[0].as_u() as u8).enc(out);
             }
             Ty::UEnum => {
                 let (v, x, s) = self.as_uenum();
@@ -524,7 +539,36 @@ pub fn enc_argvals(recv: Option<&ArgVal>, args: &[ArgVal], tys: &[Ty]) -> Vec<u8
 }
 
 /// Body of a plain-return decorated function: counts the execution and returns the twin value.
+thread_local! {
+    static NESTED: RefCell<Option<Box<dyn FnOnce()>>> = const { RefCell::new(None) };
+}
+
+/// Install a one-shot action that the next body / `cache_if` / `invalidate_on` function
+/// running on this thread performs first (user code calling back into the library).
+pub fn set_nested(f: Box<dyn FnOnce()>) {
+    NESTED.with(|n| *n.borrow_mut() = Some(f));
+}
+
+pub fn clear_nested() -> bool {
+    NESTED.with(|n| n.borrow_mut().take()).is_some()
+}
+
+fn run_nested() {
+    let f = NESTED.with(|n| n.borrow_mut().take());
+    if let Some(f) = f {
+        // the nested action scripts its own calls: keep the outer call's script
+        let saved = (EXEC.with(|e| e.get()), NEXT_OK.with(|o| o.get()), NEXT_VER.with(|v| v.get()), CIF_VERDICT.with(|c| c.get()), INV_VERDICT.with(|c| c.get()));
+        f();
+        EXEC.with(|e| e.set(saved.0));
+        NEXT_OK.with(|o| o.set(saved.1));
+        NEXT_VER.with(|v| v.set(saved.2));
+        CIF_VERDICT.with(|c| c.set(saved.3));
+        INV_VERDICT.with(|c| c.set(saved.4));
+    }
+}
+
 pub fn body_plain(fn_id: u32, pad: u32, parts: &[&dyn Enc]) -> String {
+    run_nested();
     note_exec(fn_id);
     let enc = enc_args(parts);
     twin_value_enc(fn_id, NEXT_VER.with(|v| v.get()), &enc, pad)
@@ -532,6 +576,7 @@ pub fn body_plain(fn_id: u32, pad: u32, parts: &[&dyn Enc]) -> String {
 
 /// Body of a Result-returning decorated function: outcome chosen by the harness.
 pub fn body_result(fn_id: u32, pad: u32, parts: &[&dyn Enc]) -> Result<String, String> {
+    run_nested();
     note_exec(fn_id);
     let enc = enc_args(parts);
     let v = twin_value_enc(fn_id, NEXT_VER.with(|v| v.get()), &enc, pad);
@@ -582,18 +627,22 @@ pub fn current_ok() -> bool {
 
 // predicates referenced by `cache_if = ...` / `invalidate_on = ...`
 pub fn cif_str(key: &String, v: &String) -> bool {
+    run_nested();
     PRED_LOG.with(|l| l.borrow_mut().push(PredCall { kind: 'c', key: key.clone(), value: Ret::Str(v.clone()) }));
     CIF_VERDICT.with(|c| c.get())
 }
 pub fn cif_res(key: &String, v: &Result<String, String>) -> bool {
+    run_nested();
     PRED_LOG.with(|l| l.borrow_mut().push(PredCall { kind: 'c', key: key.clone(), value: Ret::Res(v.clone()) }));
     CIF_VERDICT.with(|c| c.get())
 }
 pub fn inv_str(key: &String, v: &String) -> bool {
+    run_nested();
     PRED_LOG.with(|l| l.borrow_mut().push(PredCall { kind: 'i', key: key.clone(), value: Ret::Str(v.clone()) }));
     INV_VERDICT.with(|c| c.get())
 }
 pub fn inv_res(key: &String, v: &Result<String, String>) -> bool {
+    run_nested();
     PRED_LOG.with(|l| l.borrow_mut().push(PredCall { kind: 'i', key: key.clone(), value: Ret::Res(v.clone()) }));
     INV_VERDICT.with(|c| c.get())
 }
